@@ -78,13 +78,53 @@ def parse_frames(data: bytes, strict=True):
     return out
 
 
+def _dumps_iterative(obj, ascii_escape):
+    """json.dumps without recursion (compact separators)."""
+    out, stack = [], [obj]
+    while stack:
+        x = stack.pop()
+        if isinstance(x, _Tok):
+            out.append(x.s)
+        elif isinstance(x, dict):
+            items = list(x.items())
+            stack.append(_Tok("}"))
+            for i in range(len(items) - 1, -1, -1):
+                k, v = items[i]
+                stack.append(v)
+                stack.append(_Tok(("," if i else "") + json.dumps(str(k), ensure_ascii=ascii_escape) + ":"))
+            out.append("{")
+        elif isinstance(x, (list, tuple)):
+            stack.append(_Tok("]"))
+            for i in range(len(x) - 1, -1, -1):
+                stack.append(x[i])
+                if i:
+                    stack.append(_Tok(","))
+            out.append("[")
+        else:
+            out.append(json.dumps(x, ensure_ascii=ascii_escape))
+    return "".join(out)
+
+
+class _Tok:
+    def __init__(self, s):
+        self.s = s
+
+
 def frame(obj, *, ascii_escape=False, header_order="LT", extra_headers=()) -> bytes:
     """Independent writer.  header_order: 'L' Content-Length only, 'LT' length
     then type, 'TL' type then length."""
-    body = json.dumps(obj, separators=(",", ":"), ensure_ascii=ascii_escape).encode("utf-8")
+    try:
+        body = json.dumps(obj, separators=(",", ":"), ensure_ascii=ascii_escape).encode("utf-8")
+    except RecursionError:
+        # a deeply nested (but well-formed) message: the harness itself must be able to write it
+        body = _dumps_iterative(obj, ascii_escape).encode("utf-8")
     L = f"Content-Length: {len(body)}\r\n".encode()
     T = b"Content-Type: application/vscode-jsonrpc; charset=utf-8\r\n"
-    head = {"L": L, "LT": L + T, "TL": T + L}[header_order]
+    # field names are case-insensitive and the blank after the colon is optional (HTTP header syntax, which LSP adopts)
+    Ll = f"content-length: {len(body)}\r\n".encode()
+    Ln = f"Content-Length:{len(body)}\r\n".encode()
+    Lu = f"CONTENT-LENGTH:  {len(body)}\r\n".encode()
+    head = {"L": L, "LT": L + T, "TL": T + L, "l": Ll, "n": Ln, "Tu": T + Lu}[header_order]
     for h in extra_headers:
         head += h.encode() + b"\r\n"
     return head + b"\r\n" + body
